@@ -536,7 +536,8 @@ theorem settle_solsys : ∀ j ∈ [1], ∀ t, item? settleCfg j = some t → t.k
 /-- The history ends in the settled state of its configuration. -/
 theorem settle_hset : (wrun settleU settleW settleS0 settleHist).dyn = derivedDyn settleU settleCfg := by
   show (⟨fun i => i == 1 || i == 2, fun j e => if j = 2 ∧ e ∈ [1000, 1001] then true else false,
-    fun j f => if j = 2 ∧ f = 1001 then [] ++ [1] else if j = 2 ∧ f = 1000 then [] ++ [1] else []⟩ : Dyn) = ⟨_, _, _⟩
+    fun j f => if j = 2 ∧ f = 1001 then [1] else if j = 2 ∧ f = 1000 then [1] else [], fun _ _ => []⟩ : Dyn) =
+      ⟨_, _, _, _⟩
   congr 1
   · funext i
     by_cases h1 : i = 1
